@@ -134,6 +134,10 @@ def gen(ctx):
         bad = [i for i, v in enumerate(DOMAIN) if not probe.ref(v)[0]]
         if case['stored'] is not None and rng.random() < 0.4:
             case['nosync'] = True
+        if case['stored'] is not None and case['kind'] == 'Input' and rng.random() < 0.3:
+            # a block created earlier sends a put while IT is being restored, i.e. before the
+            # simulator's first initialisation pass has reached this Input
+            case['early_put'] = rng.randrange(len(DOMAIN))
         r = rng.random()
         if r < 0.06:
             # the delivery of the block's own output event fails with a ValueError during put #k
@@ -203,6 +207,23 @@ def run_batch(batch, ctx):
                     self.x_results.append(err)
             self.set_output(len(self.x_values))
 
+    class EarlyFeeder(edzed.AddonPersistence, edzed.SBlock):
+        """Restored from saved state; sends a put to a block created later while being restored."""
+        def _restore_state(self, state):
+            self.set_output(state)
+            try:
+                self.x_results.append(self.circuit.findblock(self.x_dest).event(
+                    'put', value=self.x_value, source=self.name))
+            except Exception as err:    # pylint: disable=broad-except
+                self.x_results.append(err)
+
+        def init_regular(self):
+            if not self.is_initialized():
+                self.set_output(0)
+
+        def get_state(self):
+            return self.output
+
     def build():
         blocks = []
         edzed.Input('sink', initdef=None)
@@ -215,6 +236,11 @@ def run_batch(batch, ctx):
             persistent = case['stored'] is not None and case['kind'] == 'Input'
             if persistent:
                 dict.__setitem__(storage, f"<Input 'b{i}'>", DOMAIN[case['stored']])
+            if persistent and case.get('early_put') is not None:
+                val.early_results = []
+                EarlyFeeder(f"ef{i}", persistent=True, x_dest=f"b{i}",
+                            x_value=DOMAIN[case['early_put']], x_results=val.early_results)
+                dict.__setitem__(storage, f"<EarlyFeeder 'ef{i}'>", 1)
             if case.get('listener_fault') is not None:
                 def listener(data, val=val):
                     if val.fault_now:
@@ -346,6 +372,18 @@ def check_one(case, blk, val, sim, ctx):
         ok, out = val.ref(DOMAIN[case['stored']])
         if ok:
             cur = out
+        if case.get('early_put') is not None:
+            # the early put found the block restored already (an event makes the pending
+            # initialisation steps run first) and was validated like any other put
+            ctx.count('puts_before_the_first_init_pass')
+            ok2, out2 = val.ref(DOMAIN[case['early_put']])
+            if ok2:
+                cur = out2
+            if val.early_results != [ok2]:
+                raise core.Violation(
+                    f"{'accepted' if ok2 else 'rejected'}-put-returned-{val.early_results!r}"[:70],
+                    f"Input: put({DOMAIN[case['early_put']]!r}) sent by another block while that "
+                    f"block was being restored: results {val.early_results!r}, expected [{ok2}]")
     if not eq(blk.output, cur):
         src = 'restored/initial'
         raise core.Violation(
@@ -427,9 +465,98 @@ def run_cases(cases, ctx, bsize=60):
         run_batch(split_cases(batch, ctx), ctx)
 
 
+def run_rearm(case, ctx):
+    """
+    An InputExp with validators whose own entry action of the 'expired' state re-arms the input
+    with a new 'put' (a chained transition, documented): that put is validated like any other.
+    """
+    import asyncio
+    import edzed
+    rearm, vkind = case['rearm'], case['validator']
+    seen = {}
+    holder = []
+
+    def valid(v):
+        return v in (1, 2, 3, 'EXP', '7', 7)
+
+    def build():
+        kw = {}
+        if vkind == 'allowed':
+            kw['allowed'] = [1, 2, 3, 'EXP']
+        elif vkind == 'check':
+            kw['check'] = lambda v: v in (1, 2, 3, 'EXP')
+        else:
+            def schema(v):
+                if v == 'EXP':
+                    return v
+                if int(v) > 50:
+                    raise ValueError('vf: too big')
+                return int(v)
+            kw['schema'] = schema
+
+        def enter_expired():
+            if not seen.get('done'):
+                seen['done'] = True
+                seen['ret'] = holder[0].event('put', value=rearm)
+        blk = edzed.InputExp('ie', duration=1.0, expired='EXP', initdef=1,
+                             enter_expired=enter_expired, **kw)
+        holder.append(blk)
+        return blk
+
+    async def drive(sim, blk):
+        await asyncio.sleep(1.5)        # the initial value has expired, the action has run
+        seen['state'] = blk.state
+        seen['out'] = blk.output
+        seen['ext_ret'] = edzed.ExtEvent(blk).send(3)
+        seen['out2'] = blk.output
+        return sim.alive()
+    out = harness.run_sim(build, drive)
+    where = f"re-arming InputExp {case}"
+    if out['exc'] is not None or not out['started'] or out['result'] is not True:
+        raise core.Violation('harness-run-exception',
+                             f"{where}: {out['exc']!r} {out['sim'].circuit.error!r}")
+    ok = rearm in (2, '2') if vkind != 'schema' else rearm in (2, '7')
+    exp_out = (rearm if vkind != 'schema' else int(rearm)) if ok else 'EXP'
+    ctx.count('puts_compared')
+    ctx.count('acceptances_seen' if ok else 'rejections_seen')
+    if seen.get('ret') is not ok:
+        raise core.Violation(
+            f"{'accepted' if ok else 'rejected'}-put-returned-{seen.get('ret')!r}",
+            f"{where}: put({rearm!r}) requested by enter_expired returned {seen.get('ret')!r}, "
+            f"expected {ok}")
+    if seen['state'] != ('valid' if ok else 'expired') or seen['out'] != exp_out \
+            or type(seen['out']) is not type(exp_out):
+        raise core.Violation(
+            f"output-after-{'accepted' if ok else 'rejected'}-put-InputExp",
+            f"{where}: after the chained put({rearm!r}) ({'valid' if ok else 'invalid'}) the "
+            f"block is {seen['state']!r} with output {seen['out']!r}, expected {exp_out!r}")
+    if seen['ext_ret'] is not True or seen['out2'] != 3:
+        raise core.Violation('output-after-accepted-put-InputExp',
+                             f"{where}: later put(3) returned {seen['ext_ret']!r}, output {seen['out2']!r}")
+
+
 def run_shard(ctx):
     run_cases(gen(ctx), ctx)
+    idx = 0
+    for vkind in ('allowed', 'check', 'schema'):
+        for rearm in (2, 99, '7', 'zz' if vkind == 'schema' else 0):
+            idx += 1
+            if idx % ctx.nshards != ctx.shard:
+                continue
+            case = {'rearm_case': True, 'validator': vkind, 'rearm': rearm}
+            try:
+                run_rearm(case, ctx)
+            except core.Violation as v:
+                ctx.violation(case, v.key, v.msg)
+            ctx.case_done(case, True)
 
 
 def replay(rep, ctx):
+    if rep['case'].get('rearm_case'):
+        try:
+            run_rearm(rep['case'], ctx)
+        except core.Violation as v:
+            ctx.violation(rep['case'], v.key, v.msg)
+        ctx.case_done(rep['case'], True)
+        return
     run_cases([rep['case']], ctx)
